@@ -136,13 +136,15 @@ theorem sys2_sol : StateEq sys2 1 (fun i => if i = 0 then 1/6 else if i = 1 then
   simp only [sys2] at hi
   interval_cases i <;> norm_num [stateRow, sys2, sumTo]
 
-theorem sys2_sol' : StateEq sys2 1 (fun i => if i < 2 then 1/6 else -3) := by
+theorem sys2_solB : StateEq sys2 1 (fun i => if i < 2 then 1/6 else -3) := by
   intro i hi
   simp only [sys2] at hi
   interval_cases i <;> norm_num [stateRow, sys2, sumTo]
 
 /-- two solutions that differ outside the order of the system: same output -/
-def nv_ss_transfer := ss_transfer sys2 1 sys2_not_natural _ _ sys2_sol sys2_sol'
+def nv_ss_transfer := ss_output_unique sys2 1 sys2_not_natural _ _ sys2_sol sys2_solB
+/-- … and the transfer value exists and is unique (owner's `ss_transfer` after audit finding F7) -/
+def nv_ss_transfer_value := ss_transfer sys2 1 sys2_not_natural
 
 theorem tf_proper : ProperTF ([3, 2, 5] : List ℚ) [2, 4, 7, 1] := by
   refine ⟨by simp, by norm_num [coef], by simp⟩
@@ -158,7 +160,7 @@ theorem tf_regular_point : polyEval ([2, 4, 7, 1] : List ℚ) 1 ≠ 0 ∧ polyEv
 
 /-- 1/(s² + 3s + 2) = 1/(s + 1) − 1/(s + 2) at s = 1 -/
 def nv_dcf_transfer :=
-  dcf_transfer ([1] : List ℚ) [1, 3, 2] [-1, -2] [1, -1] 1
+  dcf_transfer_partial ([1] : List ℚ) [1, 3, 2] [-1, -2] [1, -1] 1 rfl rfl
     (by intro i hi; simp at hi; interval_cases i <;> norm_num [coef])
     (fun i => if i = 0 then 1/2 else 1/3)
     (by intro i hi; simp [dcfOf] at hi; interval_cases i <;> norm_num [stateRow, dcfOf, sumTo, coef])
